@@ -472,7 +472,7 @@ pub struct Family {
     pub kind: FamilyKind,
 }
 
-pub const FAMILIES: [Family; 34] = [
+pub const FAMILIES: [Family; 37] = [
     Family { name: "paren-a", kind: FamilyKind::Nest },
     Family { name: "paren-num", kind: FamilyKind::Nest },
     Family { name: "array-num", kind: FamilyKind::Nest },
@@ -487,6 +487,9 @@ pub const FAMILIES: [Family; 34] = [
     Family { name: "prop-a", kind: FamilyKind::Nest },
     Family { name: "rec", kind: FamilyKind::Nest },
     Family { name: "nested-app", kind: FamilyKind::Nest },
+    Family { name: "content-status", kind: FamilyKind::Nest },
+    Family { name: "content-status-media", kind: FamilyKind::Nest },
+    Family { name: "content-headers-media", kind: FamilyKind::Nest },
     Family { name: "open-paren", kind: FamilyKind::Nest },
     Family { name: "open-array", kind: FamilyKind::Nest },
     Family { name: "open-object", kind: FamilyKind::Nest },
@@ -544,6 +547,11 @@ pub fn family_text(name: &str, d: usize) -> String {
         "prop-a" => format!("{}a", rep("'p ", d)),
         "rec" => format!("{}x", rep("rec x ", d)),
         "nested-app" => format!("{}a{}", rep("f (", d), rep(")", d)),
+        // body-less contents nested in attribute values, with and without a later attribute
+        // (the content production is tried twice: with a body, then without)
+        "content-status" => format!("{}200{}", rep("<status=", d), rep(">", d)),
+        "content-status-media" => format!("{}200{}", rep("<status=", d), rep(", media=/a/b>", d)),
+        "content-headers-media" => format!("{}str{}", rep("<headers={'h ", d), rep("}, media=\"a/b\">", d)),
         // brackets opened and never (or wrongly) closed: the parse fails at every level
         "open-paren" => format!("{}a", rep("(", d)),
         "open-array" => format!("{}num", rep("[", d)),
